@@ -1,7 +1,9 @@
-import os, subprocess, tempfile
+import hashlib, os, subprocess, tempfile
 from common import Rng
 
-PT = "/verif/.build/pt"
+# the harness build that ./check uses (a scratch copy of the repo selected with VERIF_REPO gets its own directory)
+_REPO = os.environ.get("VERIF_REPO", "/repo")
+PT = "/verif/.build/pt" + ("" if _REPO == "/repo" else "-alt" + hashlib.sha1(_REPO.encode()).hexdigest()[:6])
 
 THEOREMS = [
     "check_run_ok", "negotiate_agrees", "codecs_mirror", "encode_lengths_consistent", "encode_frame_bound", "fitLoop_is_fitN",
@@ -9,7 +11,7 @@ THEOREMS = [
     "encodeLoop_is_chunks", "roundtrip_update", "roundtrip_open", "roundtrip_small", "roundtrip_keepalive",
     "roundtrip_refresh", "roundtrip_notification", "as4_roundtrip", "decode_encode_fixed_point",
     "decode_encode_fixed_point_frame", "as4_roundtrip_full_false", "check_run_full_false", "witness_nexthop",
-    "witness_confed_tail", "repaired_dropped", "repaired_refused", "repaired_open", "repaired_partial", "repaired_confed",
+    "witness_confed_tail", "dom_examples_multiframe", "two_octet_peer_example", "repaired_dropped", "repaired_refused", "repaired_open", "repaired_partial", "repaired_confed",
     "repaired_notification",
 ]
 
@@ -30,7 +32,10 @@ THEOREM_BACKED = ["OPEN + all capability kinds (block <= 253 bytes)", "NOTIFICAT
 HYPOTHESIS_BACKED = ["NLRI encoders/decoders of VPNv4/v6, labeled-unicast v4/v6, EVPN, flowspec v4/v6(+VPN), BGP-LS, MUP v4/v6, "
                      "SR-policy v4/v6, RTC: wire bytes and per-entry decode verdict are measured on the real code (probe) and "
                      "passed in the case; framing/chunking around them is the modelled code; judged by the structural oracle "
-                     "(frame bound, length consistency, byte-level partition, decode-back equality by the REAL decoder)",
+                     "(frame bound, length consistency, byte-level partition, decode-back equality by the REAL decoder). "
+                     "Whether such an NLRI is encodable at all is decided from the INPUT (Codec.hasWireForm: label-stack bits "
+                     "<= 255), not by the probe: a refused valid NLRI is the failure `valid-entry-refused`; corpus "
+                     "seed-families-embedded-probes.case pins the wire bytes of every family",
                      "UPDATE Reach towards a 2-byte-AS peer (AS_PATH/AGGREGATOR downgrade inside a whole message): modelled and "
                      "compared on every case, not covered by the master theorem (only by as4_roundtrip)"]
 
@@ -53,8 +58,9 @@ CONFIG = dict(
     level_note="Trusted: Lean kernel; axioms propext/Classical.choice/Quot.sound; the hand-written model and reader (checked "
                "only by the correspondence stream); harness glue (case construction incl. attributes obtained through the real "
                "decoder, rendering). Master-theorem domain = buildable+encodable messages; UPDATEs of IPv4/IPv6 "
-               "unicast/multicast; announcements only on 4-octet-AS sessions and without an "
-               "IPv4 next hop inside MP_REACH. Modelled, not verified: 2-byte-AS announcements as whole messages, the families "
+               "unicast/multicast (incl. multi-frame ones, kernel-evaluated examples dom_examples_multiframe); announcements only on "
+               "4-octet-AS sessions (2-octet-AS whole messages: correspondence + the kernel-evaluated two_octet_peer_example) and "
+               "without the padded IPv4 next hop inside MP_REACH (F4d; IPv4 multicast with its as-is IPv4 next hop is inside). Modelled, not verified: 2-byte-AS announcements as whole messages, the families "
                "outside the model (probe-parameterised, impl-only oracle), BytesMut growth, non-ASCII FQDN, Family reserved octet.",
     lean_modules=["Rbgp.Enc.Props"],
     theorems=["Rbgp.Enc.Props." + t for t in THEOREMS],
@@ -72,7 +78,10 @@ CONFIG = dict(
          "with 255-AS segments, >255 hops, wide AS, confed segments; attributes stored with EXTENDED/PARTIAL bits (values "
          "obtained through the real decoder); OPEN capability blocks around 255 bytes; non-trivial = at least one frame "
          "longer than the fixed header was produced; distinct = distinct case line",
-    expect_tokens=["(err)", "(fp t)", "(fp na)", "(eor ", "(open ",
+    expect_tokens=["(err)", "(fp t)"] + ["(r %d %d " % f for f in
+                   [(1, 128), (2, 128), (1, 4), (2, 4), (1, 132), (1, 73), (2, 73), (1, 85), (2, 85), (1, 133), (2, 133),
+                    (1, 134), (2, 134), (25, 70), (16388, 71), (1, 2), (2, 2)]] + ["(u %d %d " % f for f in
+                   [(1, 128), (2, 128), (1, 4), (2, 4), (1, 132), (1, 85), (2, 85), (1, 133), (2, 133), (25, 70), (16388, 71)]] + [ "(fp na)", "(eor ", "(open ",
                    "(notif ", "keepalive", "(rr ", "(upd (r 1 1 ", "(upd none (r 2 1 ", "(upd none (r 1 1 ", "(v6ll ", "(o ",
                    "none none (u 1 1 ", "none none none (u 2 1 ", "(errs (", "(opq "],
     trusted_base=["model Rbgp/Enc/Model.lean (encoder) and Rbgp/Enc/Reader.lean (peer decoder, written from RFC 4271/4760/7911/"
@@ -87,11 +96,17 @@ CONFIG = dict(
                   "extended-length flag, FQDN lower-casing, NOTIFICATION data cut to the negotiated maximum"],
     modelled_not_verified=["announcements towards a 2-byte-AS peer as whole messages (model + correspondence; theorem only for the "
                            "AS_PATH transformation)", "families outside the model (hypothesis-backed, see assumptions)",
-                           "BytesMut growth/reserve, the tokio Framed adapter", "non-ASCII FQDN strings, the reserved octet of "
+                           "BytesMut growth/reserve, the tokio Framed adapter",
+                           "daemon/src/event/mod.rs flush_tx (Err => log + skip the message, sync_tx counting, the txbuf flush "
+                           "threshold) and PendingTx::drain_messages (grouping prefixes into messages): daemon code that no C04 "
+                           "harness executes; the property is checked at PeerCodec::encode_to", "non-ASCII FQDN strings, the reserved octet of "
                            "Family(u32) in MP capabilities", "`withdrawn_len as u16` / `mp_len as u16` casts (cannot truncate: the loop "
                            "keeps the frame within the maximum; modelled with the truncation)"],
     assumptions=["theorem_backed: " + "; ".join(THEOREM_BACKED), "hypothesis_backed: " + "; ".join(HYPOTHESIS_BACKED),
-                 "buildable messages: distinct attribute codes, none of NEXT_HOP/MP_REACH/MP_UNREACH/AS4_PATH/AS4_AGGREGATOR in the "
+                 "RFC 8950 is read per (AFI, SAFI): an IPv4-AFI family may carry an IPv6 next hop only if both sides listed that "
+                 "family; IPv4 unicast travels in MP_REACH/MP_UNREACH iff the tuple (1,1) is in force (mirrors FamilyState / "
+                 "PeerCodec::extended_nexthop(Family::IPV4) of the per-family negotiate)",
+                 "buildable messages: UPDATEs carry at least one route, distinct attribute codes, none of NEXT_HOP/MP_REACH/MP_UNREACH/AS4_PATH/AS4_AGGREGATOR in the "
                  "attribute list (the encoder synthesises them), attribute contents as Attribute::decode guarantees, ORIGIN and "
                  "AS_PATH present, path-id 0 without add-path, family negotiated, simple capability sets (no duplicate MP / "
                  "add-path / ext-nexthop tuples)"],
@@ -123,6 +138,16 @@ OPAQUE = {
 }
 FLOWSPEC = [(1, 133), (2, 133), (1, 134), (2, 134)]
 OK_PROBE = "((o 0 t))"
+
+
+def has_wire_form(fam, reach, kind, seed):
+    """Mirror of Codec.hasWireForm: the only NLRI without a wire form are label stacks whose bit count exceeds 255."""
+    mx = 32 if fam[0] == 1 else 128
+    if fam[0] in (1, 2) and fam[1] == 128:
+        return 24 * kind + 64 + seed % (mx + 1) <= 255
+    if fam[0] in (1, 2) and fam[1] == 4:
+        return (24 * kind + seed % (mx + 1) <= 255) if reach else True
+    return True
 
 
 def hexs(bs):
@@ -203,8 +228,8 @@ def cap_pair(r, fam, force=None):
     """Capability sets of both sides; `fam` is (almost always) negotiated."""
     force = force or {}
     others = [f for f in IPFAMS + [(1, 128), (2, 128), (1, 4)] if f != fam]
-    lf = [fam] if r.chance(19, 20) else []
-    rf = [fam] if r.chance(19, 20) else []
+    lf = [fam] if r.chance(49, 50) else []
+    rf = [fam] if r.chance(49, 50) else []
     for f in others:
         if r.chance(1, 4):
             lf.append(f)
@@ -217,12 +242,22 @@ def cap_pair(r, fam, force=None):
     as4r = force.get("as4r", r.chance(3, 4))
     eml = force.get("eml", r.chance(1, 3))
     emr = force.get("emr", r.chance(1, 3))
-    enh_l = [f for f in lf if f[0] == 1] if force.get("enhl", r.chance(1, 5)) else []
-    enh_r = [f for f in rf if f[0] == 1] if force.get("enhr", r.chance(1, 5)) else []
+    # RFC 8950 tuples: each side lists its own subset of the IPv4-AFI families (independently, so that "negotiated for
+    # family X" and "negotiated for some family" differ); `enh` forces the tuple of `fam` on a side
+    def enh_list(fs, forced):
+        if forced is False:
+            return []
+        out = [f for f in fs if f[0] == 1 and (r.chance(1, 2) or (forced and f == fam))]
+        return out
+    fl, fr_ = force.get("enhl"), force.get("enhr")
+    enh_l = enh_list(lf, fl if fl is not None else (True if r.chance(1, 4) else (None if r.chance(1, 5) else False)))
+    enh_r = enh_list(rf, fr_ if fr_ is not None else (True if r.chance(1, 4) else (None if r.chance(1, 5) else False)))
     loc = gen_caps(r, lf, [], as4l, eml, lambda f: apl if (f == fam or r.chance(1, 2)) else 0, enh_l)
     rem = gen_caps(r, rf, [], as4r, emr, lambda f: apr if (f == fam or r.chance(1, 2)) else 0, enh_r)
+    both = set(enh_l) & set(enh_r)
     info = dict(ap=(fam in lf and fam in rf and apl & 2 and apr & 1), em=(eml and emr), two=not (as4l and as4r),
-                enh=bool(set(enh_l) & set(enh_r)), neg=(fam in lf and fam in rf))
+                enh=(fam in both and fam in lf and fam in rf), enh4=(V4 in both and V4 in lf and V4 in rf),
+                neg=(fam in lf and fam in rf))
     return loc, rem, info
 
 
@@ -235,6 +270,8 @@ def gen_aspath(r, two):
         if wide:
             return r.pick([65536, 70000, 4200000001, 4294967295, 131072])
         return r.pick([1, 64512, 65001, 65002, 65535, 23456])
+    if style == "emptyseg" and r.chance(3, 4):
+        style = "short"          # a zero-length segment is malformed (RFC 7606): outside the quantifier, keep it rare
     if style == "empty":
         return "(asp)"
     if style == "emptyseg":
@@ -270,33 +307,65 @@ def gen_aspath(r, two):
 
 
 def gen_attrs(r, info, big_target=None):
-    """Attribute list (strings).  Mostly well-formed and complete; a few deliberately odd ones."""
+    """Attribute list (strings).  Mostly well-formed and complete; a few deliberately odd ones.
+    `raw` forms are values obtained through the real decoder (stored EXTENDED / PARTIAL bits, the 6-byte AGGREGATOR)."""
     attrs = []
-    attrs.append("(val 1 %d)" % r.below(3) if r.chance(9, 10) else "(raw %d 1 x%02x)" % (r.pick([64, 64, 80, 96]), r.below(3)))
-    attrs.append("(bin 2 %s)" % gen_aspath(r, info["two"]))
+
+    def fixed(code, canon, val, nbytes):
+        """a fixed-size attribute: constructor form or (1 in 6) decoded from the wire with the canonical / EXTENDED flags"""
+        if r.chance(5, 6):
+            return "(val %d %d)" % (code, val)
+        return "(raw %d %d %s)" % (r.pick([canon, canon | 16]), code, hexs(list(val.to_bytes(nbytes, "big"))))
+
+    attrs.append(fixed(1, 64, r.below(3), 1) if r.chance(19, 20) else "(raw 96 1 x%02x)" % r.below(3))
+    if r.chance(11, 12):
+        attrs.append("(bin 2 %s)" % gen_aspath(r, info["two"]))
+    else:
+        attrs.append("(raw %d 2 %s)" % (r.pick([64, 80]), r.pick(["x", "x02020000fde900011170", "x0301000000010201000000020101fffffffe"])))
     if r.chance(1, 2):
-        attrs.append("(val 4 %d)" % r.pick([0, 1, 100, 4294967295]))
+        attrs.append(fixed(4, 128, r.pick([0, 1, 100, 4294967295]), 4))
     if r.chance(1, 2):
-        attrs.append("(val 5 %d)" % r.pick([0, 100, 200, 4294967295]))
+        attrs.append(fixed(5, 64, r.pick([0, 100, 200, 4294967295]), 4))
     if r.chance(1, 6):
-        attrs.append("(bin 6 x)")
+        attrs.append("(bin 6 x)" if r.chance(3, 4) else "(raw %d 6 x)" % r.pick([64, 80]))
     if r.chance(1, 4):
         asn = r.pick([65001, 23456, 70000, 4200000001])
         ip = [192, 0, 2, r.below(256)]
-        form = r.pick(["bin", "bin", "raw", "rawp"])
+        form = r.pick(["bin", "bin", "raw", "rawp", "raw6"])
         body = hexs(list(asn.to_bytes(4, "big")) + ip)
-        attrs.append("(bin 7 %s)" % body if form == "bin" else "(raw %d 7 %s)" % (192 if form == "raw" else 224, body))
+        if form == "raw6":
+            # the 6-byte form of a 2-octet-AS speaker, as the decoder up-converts it
+            attrs.append("(raw %d 7 %s)" % (r.pick([192, 224]), hexs([0xfd, 0xe9] + ip)))
+        else:
+            attrs.append("(bin 7 %s)" % body if form == "bin" else "(raw %d 7 %s)" % (192 if form == "raw" else 224, body))
     if r.chance(1, 3):
         n = r.pick([0, 1, 2, 5, 63, 64, 70])
         attrs.append("(bin 8 (fill %d %d))" % (4 * n, r.below(1000)))
     if r.chance(1, 6):
-        attrs.append("(val 9 %d)" % r.pick([1, 3232235777]))
+        attrs.append(fixed(9, 128, r.pick([1, 3232235777]), 4))
     if r.chance(1, 6):
-        attrs.append("(bin 10 (fill %d %d))" % (4 * r.below(5), r.below(1000)))
+        n = 4 * r.below(5)
+        attrs.append("(bin 10 (fill %d %d))" % (n, r.below(1000)) if r.chance(3, 4)
+                     else "(raw %d 10 (fill %d %d))" % (r.pick([128, 144]), n, r.below(1000)))
     if r.chance(1, 8):
         attrs.append("(bin 16 (fill %d %d))" % (8 * r.below(40), r.below(1000)))
     if r.chance(1, 8):
         attrs.append("(bin 32 (fill %d %d))" % (12 * r.below(30), r.below(1000)))
+    # TUNNEL_ENCAP / BGP-LS / PREFIX_SID values (opaque byte strings to the codec; > 255 bytes are common for LS)
+    for code, canon in ((23, 192), (29, 128), (40, 192)):
+        if r.chance(1, 10):
+            n = r.pick([0, 7, 40, 255, 256, 300, 1200])
+            if r.chance(3, 4):
+                attrs.append("(bin %d (fill %d %d))" % (code, n, r.below(1000)))
+            else:
+                fl = r.pick([canon, canon | 16] + ([canon | 32] if canon == 192 else []))
+                if n > 255:
+                    fl |= 16
+                attrs.append("(raw %d %d (fill %d %d))" % (fl, code, n, r.below(1000)))
+    if r.chance(1, 10):
+        # AIGP: one or two well-formed TLVs
+        tlvs = "01000b%016x" % r.below(1 << 40) + ("" if r.chance(2, 3) else "020004aa")
+        attrs.append("(bin 26 x%s)" % tlvs if r.chance(2, 3) else "(raw %d 26 x%s)" % (r.pick([128, 144]), tlvs))
     if r.chance(1, 6):
         code = r.pick([99, 100, 200, 255])
         flags = r.pick([192, 192, 224, 208, 193])
@@ -307,12 +376,23 @@ def gen_attrs(r, info, big_target=None):
     if big_target is not None and big_target > 0:
         code, flags = r.pick([(98, 192), (97, 224)])
         attrs.append("(opq %d %d (fill %d %d))" % (code, flags, big_target, r.below(1000)))
-    # oddities (outside the quantifier; exercise the model only)
-    if r.chance(1, 40):
+    odd = r.chance(1, 30)
+    if not odd:
+        # distinct attribute codes (the quantifier): keep the first of each
+        seen, keep = set(), []
+        for a in attrs:
+            w = a.split()
+            code = int(w[2]) if w[0] == "(raw" else int(w[1])
+            if code not in seen:
+                seen.add(code)
+                keep.append(a)
+        attrs = keep
+    else:
+        # oddities (outside the quantifier; exercise the model only)
         attrs.append(r.pick(["(val 1 0)", "(bin 8 x0102)", "(val 8 5)", "(bin 7 x0001)", "(bin 2 x0201)", "(bin 3 x0a000001)", "(bin 17 x020100010000)", "(bin 3 x0a0000)",
-                             "(bin 26 x01000b0000000000000064)", "(bin 26 x010003)", "(bin 26 x0100)", "(raw 128 26 x01000400)"]))
-    if r.chance(1, 40) and len(attrs) > 2:
-        attrs.pop(r.below(2))
+                             "(bin 26 x010003)", "(bin 26 x0100)", "(raw 128 26 x01000400)"]))
+        if r.chance(1, 2) and len(attrs) > 2:
+            attrs.pop(r.below(2))
     if r.chance(1, 3):
         # keep ORIGIN / AS_PATH anywhere
         k = r.below(len(attrs))
@@ -322,7 +402,7 @@ def gen_attrs(r, info, big_target=None):
 
 def gen_nh(r, fam, info):
     legacy = fam == V4 and not info["enh"]
-    if r.chance(1, 40):
+    if r.chance(1, 60):
         return "none"
     v4 = "(v4 %d)" % r.pick([3232235777, 167772161, 16843009])
     g = hexs([0x20, 0x01, 0x0d, 0xb8] + [0] * 11 + [1 + r.below(200)])
@@ -330,9 +410,12 @@ def gen_nh(r, fam, info):
     v6 = "(v6 %s)" % g
     v6ll = "(v6ll %s %s)" % (g, ll if r.chance(9, 10) else hexs([0] * 16))
     if legacy:
-        return v4 if r.chance(19, 20) else v6
+        return v4 if r.chance(29, 30) else v6
     if fam[0] == 2:
-        return r.weighted([(v6, 8), (v6ll, 4), (v4, 1)])
+        return r.weighted([(v6, 32), (v6ll, 16), (v4, 1)])
+    if fam[0] == 1 and not info["enh"]:
+        # RFC 8950: an IPv6 next hop for an IPv4-AFI family only when negotiated for that family
+        return v4 if r.chance(14, 15) else r.pick([v6, v6ll])
     return r.weighted([(v6, 6), (v6ll, 2), (v4, 4)])
 
 
@@ -368,7 +451,7 @@ def gen_ip_entries(r, fam, info, count):
 
 def pick_count(r, cap):
     """0 … 3×capacity, biased to small values and the frame boundaries."""
-    return r.weighted([(0, 2), (1, 6), (2, 4), (3 + r.below(10), 8), (max(0, cap - 3 + r.below(7)), 6),
+    return r.weighted([(0, 1), (1, 8), (2, 4), (3 + r.below(10), 8), (max(0, cap - 3 + r.below(7)), 6),
                        (max(0, 2 * cap - 3 + r.below(7)), 3), (cap + r.below(2 * cap + 1), 3), (3 * cap, 1)])
 
 
@@ -413,10 +496,11 @@ def gen_update(r, explore_ok=True):
 def gen_open(r):
     fams = [f for f in IPFAMS + list(OPAQUE) if r.chance(1, 3)]
     style = r.weighted([("normal", 12), ("many", 2), ("edge", 2)])
+    odd = r.chance(1, 8)          # values outside the quantifier (model = impl is still compared)
     asn = r.pick([65001, 65535, 23456, 65536, 4200000001])
     caps = ["(mp %d %d)" % f for f in fams]
     if asn > 65535 or asn == 23456 or r.chance(1, 2):
-        caps.append("(as4 %d)" % (asn if r.chance(9, 10) else 65001))
+        caps.append("(as4 %d)" % (asn if (asn > 65535 or asn == 23456) and not odd else r.pick([asn, 65001])))
     if r.chance(1, 2):
         caps.append("rr")
     if r.chance(1, 3):
@@ -424,18 +508,21 @@ def gen_open(r):
     if r.chance(1, 3):
         caps.append("err")
     if r.chance(1, 3) and fams:
-        caps.append("(ap %s)" % " ".join("(%d %d %d)" % (f[0], f[1], r.pick([1, 2, 3, 3, 0, 4])) for f in fams if r.chance(2, 3)))
+        caps.append("(ap %s)" % " ".join("(%d %d %d)" % (f[0], f[1], r.pick([1, 2, 3, 3, 0, 4] if odd else [1, 2, 3, 3]))
+                                         for f in fams if r.chance(2, 3)))
     if r.chance(1, 4):
-        caps.append("(enh %s)" % " ".join("(%d %d %d)" % (f[0], f[1], r.pick([2, 2, 2, 1])) for f in fams if f[0] == 1 or r.chance(1, 10)))
+        caps.append("(enh %s)" % " ".join("(%d %d %d)" % (f[0], f[1], r.pick([2, 2, 2, 1]) if odd else 2)
+                                          for f in fams if f[0] == 1 or (odd and r.chance(1, 10))))
     if r.chance(1, 3):
-        caps.append("(gr %d %d%s)" % (r.pick([0, 4, 8, 12, 15, 16]), r.pick([0, 120, 4095, 4096]),
+        caps.append("(gr %d %d%s)" % (r.pick([0, 4, 8, 12, 15, 16] if odd else [0, 4, 8, 12, 15]),
+                                      r.pick([0, 120, 4095, 4096] if odd else [0, 120, 4095]),
                                       "".join(" (%d %d %d)" % (f[0], f[1], r.pick([0, 128])) for f in fams if r.chance(2, 3))))
     if r.chance(1, 4):
         caps.append("(llgr%s)" % "".join(" (%d %d %d %d)" % (f[0], f[1], r.pick([0, 128]), r.pick([0, 3600, 16777215]))
                                         for f in fams if r.chance(2, 3)))
     if r.chance(1, 3):
-        hl = r.pick([0, 1, 8, 64]) if style != "edge" else r.pick([120, 126, 127, 200])
-        dl = r.pick([0, 11]) if style != "edge" else r.pick([120, 126, 127, 128])
+        hl = r.pick([0, 1, 8, 64]) if style != "edge" else r.pick([120, 126, 127, 200] if odd else [100, 120, 126, 127])
+        dl = r.pick([0, 11]) if style != "edge" else r.pick([120, 126, 127, 128] if odd else [100, 120, 126, 127])
         caps.append("(fqdn %s %s)" % (hexs([r.pick([65, 97, 45, 48, 90]) for _ in range(hl)]), hexs([r.pick([66, 98, 46]) for _ in range(dl)])))
     if r.chance(1, 4):
         n = r.below(6) if style != "edge" else r.pick([200, 254, 255])
@@ -453,7 +540,7 @@ def gen_open(r):
     r.chance(1, 3) and caps.reverse()
     hold = r.pick([0, 3, 90, 180, 65535])
     rid = r.pick([1, 16843009, 3232235777, 4294967294, 3758096383])
-    if r.chance(1, 40):
+    if odd and r.chance(1, 4):
         rid = r.pick([0, 4294967295, 3758096385])
     loc, rem, _ = cap_pair(r, V4)
     return case(loc, rem, "(open %d %d %d %s)" % (asn, hold, rid, " ".join(caps)))
@@ -536,9 +623,10 @@ def gen_explore(r, items_out):
             if pr is None or pr[0] == "(bad-case)":
                 return None
             d, rl = pr
-            good = (d == rl and d.endswith(" " + OK_PROBE + ")"))
-            if not good and len(ents) > 1:
-                continue          # ill-behaved values only in one-entry cases
+            # values WITHOUT a wire form (decided from the input, never from the probe) only in one-entry cases;
+            # a valid value that the encoder refuses / mis-encodes stays in: that is a defect the oracle must see
+            if not has_wire_form(fam, reach, kind, seed) and len(ents) > 1:
+                continue
             if d == rl:
                 es.append("(o %d %d %d %s)" % (kind, seed, pid, d))
             else:
